@@ -257,6 +257,7 @@ def controller(rfd, sems, sched, ctl_w):
     hold = bool((sched or {}).get('hold'))
     burst = list((sched or {}).get('burst', []))
     hold_done = False
+    pool_gone = False
     hold_quiet = (sched or {}).get('hold_ms', 250) / 1000.0
     end = False
     while not end:
@@ -271,7 +272,9 @@ def controller(rfd, sems, sched, ctl_w):
                 rec, buf = buf[:16], buf[16:]
                 tag, i, pid = chr(rec[0]), int(rec[1:8]), int(rec[8:15])
                 events.append((tag, i, pid))
-                if tag == 'S':
+                if tag == 'X':
+                    pool_gone = True
+                if tag == 'S' and not pool_gone and sems is not None and i < len(sems):
                     started.append(i)
                 if tag == 'Z':
                     end = True
@@ -339,11 +342,16 @@ def run_case(case):
     SEMS = [mp.Semaphore(0) for _ in range(n)] if (sched and cfg['nworkers'] > 0 and not sched.get('free')) else None
     cpid = os.fork()
     if cpid == 0:
+        code = 0
         try:
             os.close(ctl_r)
             controller(rfd, SEMS, sched, ctl_w)
+        except BaseException:  # noqa
+            import traceback
+            traceback.print_exc()
+            code = 3
         finally:
-            os._exit(0)
+            os._exit(code)
     os.close(ctl_w)
 
     # pool creation / termination events, from outside the source
@@ -429,6 +437,17 @@ def run_case(case):
                     info = P.pipe_info()
                     res['reads'].append(dict(kind='raised', id=eid, exc=repr(e)[:200], draws=src.i, thrown=isinstance(act, list),
                                              processed=info.processed, yielded=info.yielded, info_str=str(info)))
+            elif act == 'A':
+                # next() on a stream that has already finished: must be StopIteration, nothing else
+                try:
+                    v = next(stream)
+                    res.setdefault('after_final', []).append('value')
+                except StopIteration:
+                    res.setdefault('after_final', []).append('stop')
+                except CaseTimeout:
+                    raise
+                except Exception as e:  # noqa
+                    res.setdefault('after_final', []).append('raised %r' % (e,))
             elif act == 'C':
                 log('C')
                 stream.close()
@@ -499,7 +518,9 @@ def run_case(case):
                 break
             data += chunk
         events = pickle.loads(data)
-    os.waitpid(cpid, 0)
+    _, cstatus = os.waitpid(cpid, 0)
+    if len(hdr) != 8 or cstatus != 0:
+        res['notes'].append('controller process ended abnormally: status=%r header=%d bytes' % (cstatus, len(hdr)))
     if res['timeout'] and stream is not None:
         try:
             stream.close()
